@@ -70,6 +70,9 @@ Definition fn_sem (rx : bool -> str -> str -> bool) (d : fdecl) (args : list sva
   | _, _ => SV Nothing
   end.
 
+Fixpoint run_segs_s (F : seg -> list node -> list node) (q : list seg) (ns : list node) : list node :=
+  match q with [] => ns | sg :: q' => run_segs_s F q' (F sg ns) end.
+
 Section Sem.
   Variable rg : registry.
   Variable rx : bool -> str -> str -> bool.
@@ -124,8 +127,7 @@ Section Sem.
                             (descendants (fst n) (snd n))) ns
     end.
 
-  Fixpoint s_segs (root : json) (q : list seg) (ns : list node) : list node :=
-    match q with [] => ns | sg :: q' => s_segs root q' (s_seg root sg ns) end.
+  Definition s_segs (root : json) (q : list seg) (ns : list node) : list node := run_segs_s (s_seg root) q ns.
 
   (* the nodelist of query q applied to value v *)
   Definition sem (q : query) (v : json) : list node := s_segs v q [([], v)].
